@@ -175,13 +175,13 @@ def make_machine(H: Harness) -> Any:
         @rule(data=st.data())
         def setup_some(self, data: Any) -> None:
             sites = self.I.M.sites
-            T = data.draw(st.lists(st.sampled_from(sites), min_size=1, max_size=3, unique=True))
+            T = data.draw(st.lists(st.sampled_from(sites), min_size=0, max_size=3, unique=True))  # [] = nothing
             self.do({"op": "setup", "inst": self._inst(data), "T": T})
 
         @rule(data=st.data())
         def executor_setup(self, data: Any) -> None:
             sites = self.I.M.sites
-            T = data.draw(st.lists(st.sampled_from(sites), min_size=1, max_size=3, unique=True))
+            T = data.draw(st.lists(st.sampled_from(sites), min_size=0, max_size=3, unique=True))
             self.do({"op": "exec_setup", "inst": self._inst(data), "sel": {"T": T}})
 
         @precondition(lambda self: self.I is not None and len(self.I.execs) < 4)
